@@ -2,7 +2,9 @@
    by computation on a concrete witness) and followed by Print Assumptions.
    Oracles (Go's regexp, goa.ValidateFormat) are universally quantified. *)
 From Coq Require Import QArith Lia.
-From Validation Require Import Model Utf8Lemmas Lemmas.
+From Coq Require Import List Permutation.
+From Validation Require Import Model Utf8Lemmas Lemmas Routing LemmasRouting.
+Import ListNotations.
 Close Scope Q_scope.
 Open Scope nat_scope.
 
@@ -322,3 +324,115 @@ Example boundary_example :
   kw_fires oracle_true oracle_true (KMaxLen 2) (VStr [195; 169; 195; 169]%N) = false /\
   kw_fires oracle_true oracle_true (KMaxLen 3) (VBytes [195; 169; 195; 169]%N) = true.
 Proof. repeat split; vm_compute; reflexivity. Qed.
+
+(* ================================================================== MODEL GROWTH: where the payload travels
+   (Routing.v: httpRequestBody, removeAttribute(s), MappedAttributeExpr.Delete, Object.Delete,
+   RemoveRequired, defaultRequestHeaderAttributes, initAttr). The theorems above speak of a
+   request as a body and a list of elements; these tie both to the method PAYLOAD of the design. *)
+
+(* httpRequestBody, on a payload with distinct attribute names: the body is the payload
+   without the attributes the mapping routes elsewhere - same order, and the required names
+   are the payload's required names that stay; no attribute left means no body *)
+Theorem request_body_is_unrouted_payload :
+  forall (A : Type) (m : mattr A) (r : routing),
+    NoDup (map fst (ma_fields m)) -> NoDup (ma_required m) ->
+    request_body (PObj m) r =
+      (let b := mkMA (filter (fun f => in_body r (fst f)) (ma_fields m)) (filter (in_body r) (ma_required m)) in
+       if is_nil (ma_fields b) then RBEmpty else RBObj b).
+Proof. intros A m r Hf Hr. exact (request_body_obj A r m Hf Hr). Qed.
+Print Assumptions request_body_is_unrouted_payload.
+
+(* the invariant the fourth wave's seeded change broke: every name the body requires is a
+   name the body defines (and names stay distinct), whatever is routed away *)
+Theorem request_body_required_defined :
+  forall (A : Type) (m : mattr A) (r : routing) b,
+    NoDup (map fst (ma_fields m)) -> NoDup (ma_required m) -> incl (ma_required m) (map fst (ma_fields m)) ->
+    request_body (PObj m) r = RBObj b ->
+    incl (ma_required b) (map fst (ma_fields b)) /\ NoDup (map fst (ma_fields b)) /\ NoDup (ma_required b) /\
+    (forall n, In n (map fst (ma_fields b)) <-> In n (map fst (ma_fields m)) /\ in_body r n = true).
+Proof.
+  intros A m r b Hf Hr Hi. rewrite (request_body_obj A r m Hf Hr). cbv zeta. cbn [ma_fields].
+  destruct (is_nil _); [discriminate|]. intro H. injection H as <-. cbn [ma_fields ma_required].
+  split; [now apply required_defined|]. split; [now apply NoDup_map_filter|]. split; [now apply NoDup_filter|].
+  intro n. rewrite !in_map_iff. split.
+  - intros ([k a] & Hk & Hin). cbn [fst] in Hk. subst k. apply filter_In in Hin. destruct Hin as [Hin Hb]. split; [now exists (n, a)|exact Hb].
+  - intros [([k a] & Hk & Hin) Hb]. cbn [fst] in Hk. subst k. exists (n, a). split; [reflexivity|]. apply filter_In. now split.
+Qed.
+Print Assumptions request_body_required_defined.
+
+(* the last group of names httpRequestBody deletes comes out of a Go map, in an order that
+   changes from run to run: the result does not depend on it (no hypothesis) *)
+Theorem removal_order_immaterial :
+  forall (A : Type) (m : mattr A) ns ns', Permutation ns ns' -> remove_attributes m ns = remove_attributes m ns'.
+Proof. intros A m ns ns' H. exact (remove_attributes_perm A ns ns' H m). Qed.
+Print Assumptions removal_order_immaterial.
+
+(* initAttr: an element routed to a header / cookie / parameter is validated with the type
+   and the required flag the payload gives to the attribute of that name *)
+Theorem routed_element_is_payload_attribute :
+  forall (m : mattr att) (r : routing) f, NoDup (map fst (ma_fields m)) ->
+    In f (pick_fields (fun n => negb (in_body r n)) (fields_of m)) ->
+    memn (fst (fst f)) (routed r) = true /\
+    snd (fst f) = elem_required (PObj m) (fst (fst f)) /\
+    elem_content (PObj m) (fst (fst f)) = Some (snd f).
+Proof.
+  intros m r f Hn Hin. apply pick_fields_In in Hin. destruct Hin as [Hin Hk]. unfold in_body in Hk. rewrite negb_involutive in Hk.
+  split; [exact Hk|]. unfold fields_of in Hin. apply in_map_iff in Hin. destruct Hin as ([k a] & <- & Hin). cbn [fst snd].
+  split; [reflexivity|]. cbn [elem_content]. now apply assoc_NoDup.
+Qed.
+Print Assumptions routed_element_is_payload_attribute.
+
+(* the body goa derives documents / validates exactly the attributes that stay *)
+Theorem request_body_att :
+  forall (m : mattr att) (r : routing), NoDup (map fst (ma_fields m)) -> NoDup (ma_required m) ->
+    match request_body (PObj m) r with
+    | RBObj b => att_of b = AObject (pick_fields (in_body r) (fields_of m)) /\ pick_fields (in_body r) (fields_of m) <> []
+    | RBEmpty => pick_fields (in_body r) (fields_of m) = []
+    | RBWhole _ => False
+    end.
+Proof.
+  intros m r Hf Hr. pose proof (fields_of_filter (in_body r) m) as HF.
+  rewrite (request_body_obj att r m Hf Hr). cbv zeta. cbn [ma_fields].
+  destruct (filter (fun f => in_body r (fst f)) (ma_fields m)) as [|f0 fl] eqn:Ef; cbn [is_nil]; rewrite <- HF.
+  - reflexivity.
+  - split; [reflexivity|discriminate].
+Qed.
+Print Assumptions request_body_att.
+
+(* HEADLINE of the growth round: the design constrains the PAYLOAD; the server checks a body
+   and one element per routed attribute. A payload value satisfies every validation of the
+   design exactly when the part that stays in the body satisfies the body's and every routed
+   attribute, taken alone with its required flag, satisfies its own - for every mapping,
+   every object payload, any number of attributes (no hypothesis) *)
+Theorem payload_valid_iff_locations_valid :
+  forall (fmt_ok pat_ok : nat -> str -> bool) E n (m : mattr att) (r : routing) l,
+    violations fmt_ok pat_ok E n (att_of m) (VObj l) = [] <->
+    violations fmt_ok pat_ok E n (AObject (pick_fields (in_body r) (fields_of m))) (VObj (pick_values (in_body r) (fields_of m) l)) = [] /\
+    Forall (fun fx => violations fmt_ok pat_ok E n (AObject [fst fx]) (VObj [snd fx]) = [])
+      (combine (pick_fields (fun k => negb (in_body r k)) (fields_of m)) (pick_values (fun k => negb (in_body r k)) (fields_of m) l)).
+Proof.
+  intros fmt_ok pat_ok E n m r l. unfold violations. rewrite att_of_fields.
+  exact (obj_split fmt_ok pat_ok E (spec_user fmt_ok pat_ok E n) (in_body r) (fields_of m) l []).
+Qed.
+Print Assumptions payload_valid_iff_locations_valid.
+
+(* non-vacuity: payload {0: required string, 1: integer >= 1, 2: required string, 3: boolean
+   credential}; attribute 2 mapped to a header, 1 to a query parameter, 3 a credential with no
+   explicit mapping: the body keeps attribute 0 alone and requires it; attribute 1 = 0 violates
+   its minimum, which the payload-level and the per-location readings both report *)
+Definition ex_str : att := APrim no_validation false PString.
+Definition ex_int1 : att := APrim (mkV None None None None (Some (1 # 1)%Q) None None None None) false (PNum KInt).
+Definition ex_payload : mattr att := mkMA [(0, ex_str); (1, ex_int1); (2, ex_str); (3, APrim no_validation false PBool)] [0; 2].
+Definition ex_routing : routing := mkRt [2] [] [1] None [3].
+Example routing_example :
+  request_body (PObj ex_payload) ex_routing = RBObj (mkMA [(0, ex_str)] [0]) /\
+    request_body (PObj ex_payload) (mkRt [2; 0] [3] [1] None []) = RBEmpty /\
+    request_body (PNonObj ex_str) (mkRt [] [] [] None []) = RBWhole ex_str /\
+    request_body (PNonObj ex_str) (mkRt [] [] [7] None []) = RBEmpty /\
+    elem_required (PObj ex_payload) 2 = true /\ elem_required (PObj ex_payload) 1 = false /\
+    violations oracle_true oracle_true noenv 3 (att_of ex_payload) (VObj [VStr [97%N]; VNum (0 # 1)%Q; VStr [98%N]; VNull]) = [(EInvalidRange, [PField 1])] /\
+    violations oracle_true oracle_true noenv 3 (AObject [(1, false, ex_int1)]) (VObj [VNum (0 # 1)%Q]) = [(EInvalidRange, [PField 1])] /\
+    violations oracle_true oracle_true noenv 3 (AObject (pick_fields (in_body ex_routing) (fields_of ex_payload)))
+    (VObj (pick_values (in_body ex_routing) (fields_of ex_payload) [VStr [97%N]; VNum (0 # 1)%Q; VStr [98%N]; VNull])) = [].
+Proof. repeat split; vm_compute; reflexivity. Qed.
+
